@@ -73,3 +73,61 @@ Proof.
   assert (E : 2 / 10 ^ 4 = 2 / 10000) by (simpl; lra). rewrite E in *. replace (4 / 10 ^ 4) with (4 / 10000) by (simpl; lra).
   lra.
 Qed.
+
+(* ---------- the same for quadratics ---------- *)
+Lemma quad_dx_left (s : seg3 R) t u : quad_dx (fst (Quad_splitAtTime ROps s t)) u = t * quad_dx s (u * t).
+Proof. unfold quad_dx. destruct_pts. rcbv. ring. Qed.
+Lemma quad_dy_left (s : seg3 R) t u : quad_dy (fst (Quad_splitAtTime ROps s t)) u = t * quad_dy s (u * t).
+Proof. unfold quad_dy. destruct_pts. rcbv. ring. Qed.
+Lemma quad_dx_right (s : seg3 R) t u : quad_dx (snd (Quad_splitAtTime ROps s t)) u = (1 - t) * quad_dx s (t + u * (1 - t)).
+Proof. unfold quad_dx. destruct_pts. rcbv. ring. Qed.
+Lemma quad_dy_right (s : seg3 R) t u : quad_dy (snd (Quad_splitAtTime ROps s t)) u = (1 - t) * quad_dy s (t + u * (1 - t)).
+Proof. unfold quad_dy. destruct_pts. rcbv. ring. Qed.
+Lemma quad_speed_left (s : seg3 R) t u : 0 <= t -> quad_speed (fst (Quad_splitAtTime ROps s t)) u = t * quad_speed s (u * t).
+Proof. intro Ht. unfold quad_speed. rewrite quad_dx_left, quad_dy_left, norm2_scal, Rabs_pos_eq by exact Ht. reflexivity. Qed.
+Lemma quad_speed_right (s : seg3 R) t u : t <= 1 -> quad_speed (snd (Quad_splitAtTime ROps s t)) u = (1 - t) * quad_speed s (t + u * (1 - t)).
+Proof. intro Ht. unfold quad_speed. rewrite quad_dx_right, quad_dy_right, norm2_scal, Rabs_pos_eq by lra. reflexivity. Qed.
+Lemma quad_speed_continuous (s : seg3 R) t : continuous (quad_speed s) t.
+Proof. exact (speed_cont (quad_dx s) (quad_dy s) (quad_dx_cont s) (quad_dy_cont s) t). Qed.
+Lemma quad_speed_ex_RInt (s : seg3 R) a b : ex_RInt (quad_speed s) a b.
+Proof. apply (@ex_RInt_continuous R_CompleteNormedModule). intros z _. apply quad_speed_continuous. Qed.
+Lemma quad_arclen_left (s : seg3 R) t : 0 <= t -> quad_arclen (fst (Quad_splitAtTime ROps s t)) 0 1 = quad_arclen s 0 t.
+Proof.
+  intro Ht. unfold quad_arclen.
+  replace (RInt (quad_speed s) 0 t) with (RInt (quad_speed s) (t * 0 + 0) (t * 1 + 0)) by (f_equal; ring).
+  rewrite <- (RInt_comp_lin (quad_speed s) t 0 0 1) by (apply quad_speed_ex_RInt).
+  apply RInt_ext. intros u _. rewrite (quad_speed_left s t u Ht).
+  change (t * quad_speed s (u * t) = t * quad_speed s (t * u + 0)). f_equal. f_equal. ring.
+Qed.
+Lemma quad_arclen_right (s : seg3 R) t : t <= 1 -> quad_arclen (snd (Quad_splitAtTime ROps s t)) 0 1 = quad_arclen s t 1.
+Proof.
+  intro Ht. unfold quad_arclen.
+  replace (RInt (quad_speed s) t 1) with (RInt (quad_speed s) ((1 - t) * 0 + t) ((1 - t) * 1 + t)) by (f_equal; ring).
+  rewrite <- (RInt_comp_lin (quad_speed s) (1 - t) t 0 1) by (apply quad_speed_ex_RInt).
+  apply RInt_ext. intros u _. rewrite (quad_speed_right s t u Ht).
+  change ((1 - t) * quad_speed s (t + u * (1 - t)) = (1 - t) * quad_speed s ((1 - t) * u + t)). f_equal. f_equal. ring.
+Qed.
+Theorem quad_length_additive_gentle (s : seg3 R) (m M t : R) :
+  0 < m -> (forall u, 0 <= u <= 1 -> m <= quad_speed s u <= M) -> M <= 2 * m -> 0 < t < 1 ->
+  let l := fst (Quad_splitAtTime ROps s t) in let r := snd (Quad_splitAtTime ROps s t) in
+  Rabs (Quad_length ROps s - (Quad_length ROps l + Quad_length ROps r)) <= 4 / 10 ^ 4 * quad_arclen s 0 1.
+Proof.
+  intros Hm Hs HM Ht l r.
+  assert (Hl : forall u, 0 <= u <= 1 -> t * m <= quad_speed l u <= t * M).
+  { intros u Hu. unfold l. rewrite (quad_speed_left s t u) by lra.
+    assert (0 <= u * t <= 1) by nra. destruct (Hs (u * t) H) as [H1 H2]. split; apply Rmult_le_compat_l; lra. }
+  assert (Hr : forall u, 0 <= u <= 1 -> (1 - t) * m <= quad_speed r u <= (1 - t) * M).
+  { intros u Hu. unfold r. rewrite (quad_speed_right s t u) by lra.
+    assert (0 <= t + u * (1 - t) <= 1) by nra. destruct (Hs _ H) as [H1 H2]. split; apply Rmult_le_compat_l; lra. }
+  pose proof (quad_length_accuracy_2 s m M Hm Hs HM) as A0.
+  assert (A1 := quad_length_accuracy_2 l (t * m) (t * M) ltac:(nra) Hl ltac:(nra)).
+  assert (A2 := quad_length_accuracy_2 r ((1 - t) * m) ((1 - t) * M) ltac:(nra) Hr ltac:(nra)).
+  unfold l in A1. unfold r in A2.
+  rewrite (quad_arclen_left s t) in A1 by lra. rewrite (quad_arclen_right s t) in A2 by lra.
+  pose proof (quad_arclen_Chasles s 0 t 1) as Hc.
+  pose proof (quad_arclen_nonneg s 0 t ltac:(lra)) as N1. pose proof (quad_arclen_nonneg s t 1 ltac:(lra)) as N2.
+  fold l in A1. fold r in A2.
+  apply Rabs_le_between in A0, A1, A2. apply Rabs_le.
+  assert (E : 2 / 10 ^ 4 = 2 / 10000) by (simpl; lra). rewrite E in *. replace (4 / 10 ^ 4) with (4 / 10000) by (simpl; lra).
+  lra.
+Qed.
